@@ -46,7 +46,7 @@ class CstCases(BoundedContract):
         return list(range(1500 if self.tier == "quick" else 10000))
 
     def prog(self, case):
-        return irsem.gen_program(random.Random(4000 + case))
+        return irsem.gen_program(random.Random(4000 + case), stack=(case % 2 == 1))
 
     def show(self, case):
         return "program #%d: %s" % (case, irsem.show_prog(self.prog(case)))
